@@ -77,6 +77,12 @@ struct Case {
     /// checked against): (origin uri, uri host used for the endpoint when no domain_name is set)
     origin: Option<(&'static str, &'static str)>,
     chop: usize,
+    /// before the judged client connects, this many other peers connect and fail their TLS
+    /// handshake (they speak plaintext HTTP/2 to the TLS port and go away)
+    prior_failed: usize,
+    /// the judged client itself speaks plaintext (http:// endpoint, no TLS) to the TLS server:
+    /// it must never be served
+    plain_client: bool,
 }
 
 #[derive(Default)]
@@ -203,6 +209,19 @@ fn body(c: &Case, ch: &Chooser) -> Outcome {
                 });
             }
         }
+        // ---- peers that fail their handshake first
+        for _ in 0..c.prior_failed {
+            use tokio::io::AsyncWriteExt;
+            use tower_service::Service;
+            let mut conn = vnet::connector(st.clone());
+            if let Ok(io) = conn.call(http::Uri::from_static("http://server.test:443")).await {
+                let mut io = io.into_inner();
+                let _ = io.write_all(b"PRI * HTTP/2.0\r\n\r\nSM\r\n\r\n\x00\x00\x00\x04\x00\x00\x00\x00\x00").await;
+                vnet::settle().await;
+                drop(io);
+                vnet::settle().await;
+            }
+        }
         // ---- client side
         let uri = match c.domain {
             Domain::MatchingViaDomainName => "https://uri-host.test:443",
@@ -212,11 +231,12 @@ fn body(c: &Case, ch: &Chooser) -> Outcome {
             Some((_, host)) => host,
             None => uri,
         };
+        let uri = if c.plain_client { "http://server.test:443" } else { uri };
         let mut ep = Endpoint::from_static(uri);
         if let Some((origin, _)) = c.origin {
             ep = ep.origin(origin.parse().unwrap());
         }
-        if !c.no_tls_config {
+        if !c.no_tls_config && !c.plain_client {
             let mut tls = ClientTlsConfig::new().assume_http2(c.assume_http2);
             match c.roots {
                 Roots::RightCa => tls = tls.ca_certificate(Certificate::from_pem(CA_A)),
@@ -258,7 +278,8 @@ fn body(c: &Case, ch: &Chooser) -> Outcome {
         run.peer = seen.peer.lock().unwrap().clone();
         run.connector_invocations = st.invocations.load(Ordering::SeqCst);
         // every connection the client ever opened (a silent retry in plaintext would be a second one)
-        for s in st.conns.lock().unwrap().iter() {
+        // (the harness's own handshake-failing peers come first and are not the client's)
+        for s in st.conns.lock().unwrap().iter().skip(c.prior_failed) {
             let fb = s.first_bytes.lock().unwrap().clone();
             if run.first_client_bytes.is_empty() {
                 run.first_client_bytes = fb.clone();
@@ -283,6 +304,12 @@ fn body(c: &Case, ch: &Chooser) -> Outcome {
     o.nontrivial = true;
     if run.connect_hang || run.call_hang {
         o.violate("hang", "connect or call never completed");
+        return o;
+    }
+    if c.plain_client {
+        if ok || run.handler_calls > 0 {
+            o.violate("plaintext-client-served", format!("a client speaking plaintext HTTP/2 to the TLS server was served: ok={ok}, {} handler invocation(s) (after {} failed handshakes of other peers)", run.handler_calls, c.prior_failed));
+        }
         return o;
     }
     if c.no_tls_config {
@@ -363,6 +390,123 @@ fn body(c: &Case, ch: &Chooser) -> Outcome {
     o
 }
 
+// ---------------------------------------------------------------------------------------------
+// balanced channels: every endpoint is authenticated with its OWN TLS settings
+//
+// `Channel::balance_channel` connects inserted endpoints with tonic's own TCP connector, so this
+// section uses a real loopback socket and real time (one process-wide tonic TLS server).
+
+#[derive(Clone, Copy, Debug, PartialEq, Eq)]
+enum EpTls {
+    /// issuing CA + matching name: must be served
+    Good,
+    /// roots = the other CA
+    OtherCa,
+    /// right CA, domain_name names something outside the SAN
+    WrongName,
+}
+
+#[derive(Clone, Copy, Debug, PartialEq, Eq)]
+enum BalStep {
+    Insert(usize, EpTls),
+    Remove(usize),
+    /// a call that must succeed
+    CallOk,
+    /// a call made while only endpoints that must not authenticate are registered: it must not succeed
+    CallMustNotPass,
+}
+
+#[derive(Clone, Debug)]
+struct BalTlsCase {
+    script: Vec<BalStep>,
+}
+
+/// Starts this execution's own TLS server on a loopback port (inside the execution's runtime, so
+/// that no server-side state survives from one execution to the next).
+async fn tls_backend() -> u16 {
+    let l = tokio::net::TcpListener::bind("127.0.0.1:0").await.unwrap_or_else(|e| crate::explore::machinery(format!("cannot bind a loopback listener: {e}")));
+    let port = l.local_addr().map(|a| a.port()).unwrap_or(0);
+    let svc = EchoServer::new(TlsEcho { seen: Arc::new(Seen::default()) });
+    let tls = ServerTlsConfig::new().identity(Identity::from_pem(SERVER_CERT, SERVER_KEY));
+    let mut b = Server::builder().tls_config(tls).unwrap_or_else(|e| crate::explore::machinery(format!("server tls config: {e}")));
+    let incoming = tokio_stream::wrappers::TcpListenerStream::new(l);
+    tokio::spawn(async move {
+        let _ = b.add_service(svc).serve_with_incoming(incoming).await;
+    });
+    port
+}
+
+fn bal_body(c: &BalTlsCase, _ch: &Chooser) -> Outcome {
+    let rt = tokio::runtime::Builder::new_current_thread().enable_all().build().unwrap_or_else(|e| crate::explore::machinery(format!("runtime: {e}")));
+    let c = c.clone();
+    let (trace, bad) = rt.block_on(async move {
+        let port = tls_backend().await;
+        let (channel, tx) = tonic::transport::Channel::balance_channel::<usize>(16);
+        let mut trace: Vec<String> = vec![];
+        let mut bad: Option<(String, String)> = None;
+        for step in &c.script {
+            match *step {
+                BalStep::Insert(k, t) => {
+                    let tls = match t {
+                        EpTls::Good => ClientTlsConfig::new().ca_certificate(Certificate::from_pem(CA_A)).domain_name("server.test"),
+                        EpTls::OtherCa => ClientTlsConfig::new().ca_certificate(Certificate::from_pem(CA_B)).domain_name("server.test"),
+                        EpTls::WrongName => ClientTlsConfig::new().ca_certificate(Certificate::from_pem(CA_A)).domain_name("other.test"),
+                    };
+                    let ep = Endpoint::from_shared(format!("https://127.0.0.1:{port}")).and_then(|e| e.tls_config(tls)).unwrap_or_else(|e| crate::explore::machinery(format!("endpoint: {e}")));
+                    let _ = tx.send(tonic::transport::channel::Change::Insert(k, ep)).await;
+                    trace.push(format!("Insert({k},{t:?})"));
+                }
+                BalStep::Remove(k) => {
+                    let _ = tx.send(tonic::transport::channel::Change::Remove(k)).await;
+                    trace.push(format!("Remove({k})"));
+                }
+                BalStep::CallOk | BalStep::CallMustNotPass => {
+                    let must_pass = *step == BalStep::CallOk;
+                    let mut client = EchoClient::new(channel.clone());
+                    let limit = if must_pass { Duration::from_secs(20) } else { Duration::from_millis(1500) };
+                    let r = tokio::time::timeout(limit, client.unary(Request::new(vec![1]))).await;
+                    let ok = matches!(&r, Ok(Ok(resp)) if resp.get_ref() == &vec![7u8]);
+                    trace.push(format!("Call={}", match &r { Err(_) => "no answer".to_string(), Ok(Ok(_)) => "answer".to_string(), Ok(Err(e)) => format!("{:?}", e.code()) }));
+                    if must_pass && !ok {
+                        bad = Some(("balanced-valid-endpoint-refused".into(), format!("after {trace:?}: an endpoint whose own TLS settings are valid is registered but the call did not succeed")));
+                        break;
+                    }
+                    if !must_pass && ok {
+                        bad = Some(("balanced-call-transmitted:endpoint-authenticated-with-foreign-settings".into(), format!("after {trace:?}: the only registered endpoint's own TLS settings cannot authenticate the server, yet the call was answered")));
+                        break;
+                    }
+                }
+            }
+        }
+        (trace, bad)
+    });
+    let mut o = Outcome::new(format!("{trace:?}"));
+    o.nontrivial = true;
+    if let Some((k, why)) = bad {
+        o.violate(k, why);
+    }
+    o
+}
+
+fn bal_cases() -> Vec<BalTlsCase> {
+    use BalStep::*;
+    let mut out = vec![];
+    for bad in [EpTls::OtherCa, EpTls::WrongName] {
+        // good first, then only the bad one remains
+        out.push(BalTlsCase { script: vec![Insert(0, EpTls::Good), CallOk, Insert(1, bad), Remove(0), CallMustNotPass] });
+        out.push(BalTlsCase { script: vec![Insert(0, EpTls::Good), Insert(1, bad), Remove(0), CallMustNotPass] });
+        // bad first, then the good one alone (while both are registered the balancer may pick either,
+        // and a call that lands on the bad one legitimately fails: not judged)
+        out.push(BalTlsCase { script: vec![Insert(0, bad), Insert(1, EpTls::Good), Remove(0), CallOk] });
+        out.push(BalTlsCase { script: vec![Insert(0, bad), CallMustNotPass, Insert(1, EpTls::Good), Remove(0), CallOk] });
+        // the same key re-registered with other settings
+        out.push(BalTlsCase { script: vec![Insert(0, EpTls::Good), CallOk, Remove(0), Insert(0, bad), CallMustNotPass] });
+        out.push(BalTlsCase { script: vec![Insert(0, bad), Remove(0), Insert(0, EpTls::Good), CallOk] });
+    }
+    out.push(BalTlsCase { script: vec![Insert(0, EpTls::Good), Insert(1, EpTls::Good), CallOk, Remove(0), CallOk, Remove(1), Insert(0, EpTls::Good), CallOk] });
+    out
+}
+
 fn cases(tier: Tier) -> Vec<Case> {
     let mut out = vec![];
     let mut n = 0;
@@ -375,9 +519,9 @@ fn cases(tier: Tier) -> Vec<Case> {
                             n += 1;
                             let chops: Vec<usize> = if tier == Tier::Thorough { vec![0, 2, 3] } else { vec![[0, 2, 3][n % 3]] };
                             for chop in chops {
-                                out.push(Case { roots, domain, alpn, assume_http2, auth, ident, no_tls_config: false, ignore_order: false, origin: None, chop });
+                                out.push(Case { roots, domain, alpn, assume_http2, auth, ident, no_tls_config: false, ignore_order: false, origin: None, chop, prior_failed: 0, plain_client: false });
                                 if alpn == Alpn::H2 && roots == Roots::RightCa && domain != Domain::NonMatching {
-                                    out.push(Case { roots, domain, alpn, assume_http2, auth, ident, no_tls_config: false, ignore_order: true, origin: None, chop });
+                                    out.push(Case { roots, domain, alpn, assume_http2, auth, ident, no_tls_config: false, ignore_order: true, origin: None, chop, prior_failed: 0, plain_client: false });
                                 }
                             }
                         }
@@ -389,11 +533,24 @@ fn cases(tier: Tier) -> Vec<Case> {
     // an origin override set before tls_config must not become the verified name
     for (origin, host) in [("https://origin.test", "https://server.test:443"), ("https://server.test", "https://uri-host.test:443"), ("https://server.test", "https://server.test:443")] {
         for auth in [ClientAuth::NotRequested, ClientAuth::Required] {
-            out.push(Case { roots: Roots::RightCa, domain: Domain::FromUri, alpn: Alpn::H2, assume_http2: false, auth, ident: Ident::FromRightCa, no_tls_config: false, ignore_order: false, origin: Some((origin, host)), chop: 0 });
+            out.push(Case { roots: Roots::RightCa, domain: Domain::FromUri, alpn: Alpn::H2, assume_http2: false, auth, ident: Ident::FromRightCa, no_tls_config: false, ignore_order: false, origin: Some((origin, host)), chop: 0, prior_failed: 0, plain_client: false });
         }
     }
+    // other peers fail their handshake first; then a proper client (must still be served over TLS,
+    // with client authentication still enforced) or a plaintext client (must never be served)
+    for prior_failed in [1usize, 2] {
+        for auth in [ClientAuth::NotRequested, ClientAuth::Required, ClientAuth::Optional] {
+            for ident in [Ident::None, Ident::FromRightCa, Ident::FromOtherCa] {
+                out.push(Case { roots: Roots::RightCa, domain: Domain::FromUri, alpn: Alpn::H2, assume_http2: false, auth, ident, no_tls_config: false, ignore_order: false, origin: None, chop: 0, prior_failed, plain_client: false });
+            }
+            out.push(Case { roots: Roots::RightCa, domain: Domain::FromUri, alpn: Alpn::H2, assume_http2: false, auth, ident: Ident::None, no_tls_config: false, ignore_order: false, origin: None, chop: 0, prior_failed, plain_client: true });
+        }
+    }
+    for auth in [ClientAuth::NotRequested, ClientAuth::Required] {
+        out.push(Case { roots: Roots::RightCa, domain: Domain::FromUri, alpn: Alpn::H2, assume_http2: false, auth, ident: Ident::None, no_tls_config: false, ignore_order: false, origin: None, chop: 0, prior_failed: 0, plain_client: true });
+    }
     for alpn in [Alpn::H2, Alpn::NoneOffered] {
-        out.push(Case { roots: Roots::None, domain: Domain::FromUri, alpn, assume_http2: false, auth: ClientAuth::NotRequested, ident: Ident::None, no_tls_config: true, ignore_order: false, origin: None, chop: 0 });
+        out.push(Case { roots: Roots::None, domain: Domain::FromUri, alpn, assume_http2: false, auth: ClientAuth::NotRequested, ident: Ident::None, no_tls_config: true, ignore_order: false, origin: None, chop: 0, prior_failed: 0, plain_client: false });
     }
     out
 }
@@ -402,21 +559,31 @@ pub fn property(tier: Tier) -> Property {
     let sec = Section::new(
         "tls-matrix",
         Config { hang_secs: 60, ..Default::default() },
-        "cases: the full 486-cell matrix client roots {issuing CA, other CA, none} x domain {URI host outside the SAN + domain_name naming the SAN, URI host in the SAN + domain_name naming something else, no domain_name + URI host in the SAN} x server ALPN {h2 = tonic-terminated TLS, none, http/1.1 = harness rustls terminator in front of a plain tonic server} x assume_http2 x server client-auth {none, required, optional} x client identity {none, from the client CA, from another CA} (pipe fragmentation pattern rotating; thorough: 3 patterns each), plus the tonic-terminated, otherwise passing cells repeated with ServerTlsConfig::ignore_client_order(true) (which must not influence authentication), plus Endpoint::origin(..) overrides set before tls_config (origin host outside / inside the SAN against a URI host inside / outside it: the URI host decides), plus https URI without any TLS configuration; real handshakes (ring) over in-memory pipes in virtual time through Endpoint::tls_config + connect_with_connector and Server::tls_config. Oracle: boolean reference of the cell (must-pass / must-fail / open for http/1.1+assume_http2 and optional-auth+foreign certificate); on failure no handler invocation, client-side verification failures surface at connect, the first bytes the client ever sends are a TLS handshake record, handlers see the verified client chain (None when optional and absent). All cells count as non-trivial.",
+        "cases: the full 486-cell matrix client roots {issuing CA, other CA, none} x domain {URI host outside the SAN + domain_name naming the SAN, URI host in the SAN + domain_name naming something else, no domain_name + URI host in the SAN} x server ALPN {h2 = tonic-terminated TLS, none, http/1.1 = harness rustls terminator in front of a plain tonic server} x assume_http2 x server client-auth {none, required, optional} x client identity {none, from the client CA, from another CA} (pipe fragmentation pattern rotating; thorough: 3 patterns each), plus the tonic-terminated, otherwise passing cells repeated with ServerTlsConfig::ignore_client_order(true) (which must not influence authentication), plus Endpoint::origin(..) overrides set before tls_config (origin host outside / inside the SAN against a URI host inside / outside it: the URI host decides), plus https URI without any TLS configuration, plus sequences on one tonic-terminated server: 0..2 peers that fail their handshake (plaintext HTTP/2 sent to the TLS port) followed by a proper TLS client (authentication matrix) or by a plaintext client (never served); real handshakes (ring) over in-memory pipes in virtual time through Endpoint::tls_config + connect_with_connector and Server::tls_config. Oracle: boolean reference of the cell (must-pass / must-fail / open for http/1.1+assume_http2 and optional-auth+foreign certificate); on failure no handler invocation, client-side verification failures surface at connect, the first bytes the client ever sends are a TLS handshake record, handlers see the verified client chain (None when optional and absent). All cells count as non-trivial.",
         cases(tier),
         |c: &Case| format!("{c:?}"),
         body,
     )
     .mins(400, 4, 400);
+    let bal = Section::new(
+        "balanced-endpoints",
+        Config { hang_secs: 120, ..Default::default() },
+        "cases: scripted discovery histories on Channel::balance_channel whose endpoints carry DIFFERENT ClientTlsConfigs (valid; roots = another CA; domain_name outside the SAN) for the same TLS server: valid endpoint first and then only the invalid one left, invalid first and then the valid one alone, the same key re-registered with the other settings. A balanced channel connects with tonic's own TCP connector, so this section alone uses a real loopback socket and real time (each execution starts its own tonic TLS server on 127.0.0.1, fixture PKI). Oracle: a call made while only endpoints that cannot authenticate the server are registered is never answered (1.5 s), a call made while a valid endpoint is registered succeeds (20 s bound). All cases count as non-trivial.",
+        bal_cases(),
+        |c: &BalTlsCase| format!("{:?}", c.script),
+        bal_body,
+    )
+    .mins(10, 2, 10);
     Property {
         id: "C15",
         level: "exploration",
         hang_is_violation: true,
         assumptions: vec![
             "rustls / webpki / ring are trusted; the certificate space is the committed fixture PKI (/verif/fixtures/tls, ECDSA P-256, valid until 2126)".into(),
+            "section balanced-endpoints uses real loopback TCP and real time (tonic gives a balanced channel no custom connector); its verdicts are answered / not answered within generous bounds".into(),
             "peer certificates are read from the TlsConnectInfo<()> request extension because the pipe's ConnectInfo is () (Request::peer_certs is typed for TCP)".into(),
         ],
-        sections: vec![sec],
+        sections: vec![sec, bal],
         extra: Default::default(),
     }
 }
